@@ -162,15 +162,51 @@ type c04Op struct {
 	nf   int // number of extra fields
 }
 type c04Thread struct {
-	deriv int // 0 base, 1 With(fields), 2 Named, 3 With().Named(), 4 shared With-child
+	// 0 base, 1 With(fields), 2 Named, 3 With().Named(), 4 shared With-child,
+	// 5 With(Reflect struct), 6 With(Namespace, Any map, Any slice).Named(), 7 With(Reflect) of the shared child
+	deriv int
 	ops   []c04Op
 }
 type c04Case struct {
-	br    []c04Branch
-	th    []c04Thread
-	ticks int
-	seed  uint64
-	class string
+	br []c04Branch
+	th []c04Thread
+	// reflection-encoded values (zap.Reflect / zap.Any of a struct, map, slice) make the
+	// long-lived encoder of a With-context own a scratch buffer (jsonEncoder.reflectBuf):
+	//   baseCtx   0 none; 1 the base logger is New(...).With(Reflect struct); 2 .With(Any map, String);
+	//             3 zap.Fields(Reflect struct) option; 4 With(Reflect).With(Any) (two levels)
+	//   sharedCtx 0 the shared child carries a String only; 1 + Reflect struct; 2 + Any map + Namespace + Any slice
+	//   callRefl  per-call fields may be reflection-encoded too (c04fields, Sugar Logw)
+	baseCtx   int
+	sharedCtx int
+	callRefl  bool
+	ticks     int
+	seed      uint64
+	class     string
+}
+
+// values for the reflection-encoded fields: deterministic under encoding/json
+type c04Inner struct {
+	K string            `json:"k"`
+	V []int             `json:"v,omitempty"`
+	M map[string]string `json:"m,omitempty"`
+}
+type c04Refl struct {
+	Sv string   `json:"sv"`
+	Sh int      `json:"sh"`
+	T  []string `json:"t"`
+	In c04Inner `json:"in"`
+	P  *c04Inner
+}
+
+func c04reflVal(g, seq int, pad string) c04Refl {
+	v := c04Refl{Sv: fmt.Sprintf("<%d>&\"", g), Sh: seq, T: []string{pad, "é"}, In: c04Inner{K: pad, V: []int{g, -1}}}
+	if (g+seq)%2 == 0 {
+		v.P = &c04Inner{K: "p", M: map[string]string{"z": pad, "a": "\n"}}
+	}
+	return v
+}
+func c04reflMap(g int, pad string) map[string]interface{} {
+	return map[string]interface{}{"g": g, "p": pad, "n": map[string]int{"b": 2, "a": 1}, "l": []interface{}{"x", nil, 2.5}}
 }
 
 func c04enc(j int, b c04Branch) zapcore.Encoder {
@@ -189,6 +225,12 @@ func c04enc(j int, b c04Branch) zapcore.Encoder {
 
 func c04derive(base, shared *zap.Logger, g, deriv int) *zap.Logger {
 	switch deriv {
+	case 5:
+		return base.With(zap.Reflect("r", c04reflVal(g, 0, "ctx")), zap.Int("g", g))
+	case 6:
+		return base.With(zap.Namespace("ns"), zap.Any("am", c04reflMap(g, "w")), zap.Any("as", []c04Inner{{K: "q", V: []int{g}}})).Named("r")
+	case 7:
+		return shared.With(zap.Reflect("r2", c04reflVal(g, 1, strings.Repeat("y", 10*g))))
 	case 1:
 		return base.With(zap.Int("g", g), zap.String("ctx", "c\"x"))
 	case 2:
@@ -201,9 +243,54 @@ func c04derive(base, shared *zap.Logger, g, deriv int) *zap.Logger {
 	return base
 }
 
+// the base logger and the With-child that several goroutines share
+func c04loggers(cs *c04Case, core zapcore.Core, opts ...zap.Option) (base, shared *zap.Logger) {
+	if cs.baseCtx == 3 {
+		opts = append(opts, zap.Fields(zap.Reflect("rc", c04reflVal(3, 3, "opt"))))
+	}
+	base = zap.New(core, opts...)
+	switch cs.baseCtx {
+	case 1:
+		base = base.With(zap.Reflect("rc", c04reflVal(1, 7, "base")))
+	case 2:
+		base = base.With(zap.Any("rc", c04reflMap(2, "base")), zap.String("bs", "x"))
+	case 4:
+		base = base.With(zap.Reflect("rc", c04reflVal(4, 1, strings.Repeat("L", 24)))).With(zap.Any("rd", []c04Inner{{K: "1"}, {K: "2", V: []int{4}}}))
+	}
+	switch cs.sharedCtx {
+	case 1:
+		shared = base.With(zap.String("shared", "child"), zap.Reflect("sr", c04reflVal(9, 9, "shared")))
+	case 2:
+		shared = base.With(zap.String("shared", "child"), zap.Any("sm", c04reflMap(9, "shared")), zap.Namespace("sn"), zap.Any("ss", []interface{}{"s", 1, c04Inner{K: "i"}}))
+	default:
+		shared = base.With(zap.String("shared", "child"))
+	}
+	return base, shared
+}
+
+// a prefix of the message (at most 48 bytes) to vary the reflection-encoded values
+func c04pad(msg string, d int) string {
+	n := len(msg) / d
+	if n > 48 {
+		n = 48
+	}
+	return msg[:n]
+}
+
 func c04fields(o c04Op, seq int) []zap.Field {
 	fs := []zap.Field{zap.Int("i", seq)}
 	for k := 0; k < o.nf; k++ {
+		switch k {
+		case 4:
+			fs = append(fs, zap.Reflect("r", c04reflVal(len(o.msg), seq, c04pad(o.msg, 4))))
+			continue
+		case 5:
+			fs = append(fs, zap.Any("y", c04reflMap(seq, c04pad(o.msg, 6))))
+			continue
+		case 6:
+			fs = append(fs, zap.Any("z", []c04Inner{{K: c04pad(o.msg, 2), V: []int{seq}}, {K: "2"}}))
+			continue
+		}
 		switch k % 4 {
 		case 0:
 			fs = append(fs, zap.String("s", o.msg[:len(o.msg)/3]))
@@ -246,6 +333,12 @@ func c04log(l *zap.Logger, o c04Op, seq int) {
 		if o.nf > 0 {
 			kv = append(kv, "s", o.msg[:len(o.msg)/3])
 		}
+		if o.nf > 4 { // Sugar: a struct / map value goes through zap.Any -> Reflect
+			kv = append(kv, "r", c04reflVal(len(o.msg), seq, c04pad(o.msg, 4)))
+		}
+		if o.nf > 5 {
+			kv = append(kv, "y", c04reflMap(seq, "kv"))
+		}
 		s.Logw(o.lvl, o.msg, kv...)
 	case 4: // sugared, formatted
 		l.Sugar().Logf(o.lvl, "%s", o.msg)
@@ -269,8 +362,7 @@ func c04reference(cs *c04Case) [][]c04RefEntry {
 		bufs[j] = &bytes.Buffer{}
 		cores[j] = zapcore.NewCore(c04enc(j, b), zapcore.AddSync(bufs[j]), zapcore.InfoLevel)
 	}
-	base := zap.New(zapcore.NewTee(cores...))
-	shared := base.With(zap.String("shared", "child"))
+	base, shared := c04loggers(cs, zapcore.NewTee(cores...))
 	out := make([][]c04RefEntry, len(cs.th))
 	for g, th := range cs.th {
 		l := c04derive(base, shared, g, th.deriv)
@@ -360,8 +452,7 @@ func c04run(cs *c04Case, caseNo int) *c04Obs {
 		cores[j] = zapcore.NewCore(c04enc(j, b), ws, zapcore.InfoLevel)
 	}
 	obs.errOut = &c04Rec{id: "errout"}
-	base := zap.New(zapcore.NewTee(cores...), zap.ErrorOutput(zapcore.Lock(obs.errOut)))
-	shared := base.With(zap.String("shared", "child"))
+	base, shared := c04loggers(cs, zapcore.NewTee(cores...), zap.ErrorOutput(zapcore.Lock(obs.errOut)))
 
 	var wg, tickWg sync.WaitGroup
 	start := make(chan struct{})
@@ -587,8 +678,27 @@ func c04emit(c *Ctx, cs *c04Case, caseNo int) {
 		}
 	}
 	c.Emit(input, L(ob...), map[string]string{"nt": nt, "class": cs.class, "g": fmt.Sprint(len(cs.th)),
-		"lines": fmt.Sprint(totalLines), "maxline": fmt.Sprint(maxLine), "bigger": big, "syncs": fmt.Sprint(syncOps), "ticks": fmt.Sprint(cs.ticks)})
+		"lines": fmt.Sprint(totalLines), "maxline": fmt.Sprint(maxLine), "bigger": big, "syncs": fmt.Sprint(syncOps), "ticks": fmt.Sprint(cs.ticks),
+		"refl": fmt.Sprintf("%d%d%v", cs.baseCtx, cs.sharedCtx, cs.usesRefl())})
 	c.out.Flush()
+}
+
+// does any With-context or per-call field of the case hold a reflection-encoded value?
+func (cs *c04Case) usesRefl() bool {
+	if cs.baseCtx != 0 || cs.sharedCtx != 0 {
+		return true
+	}
+	for _, th := range cs.th {
+		if th.deriv >= 5 {
+			return true
+		}
+		for _, o := range th.ops {
+			if o.kind == 0 && o.nf > 4 {
+				return true
+			}
+		}
+	}
+	return false
 }
 
 func c04isAccepted(o c04Op) bool { return o.kind == 0 && o.lvl >= zapcore.InfoLevel }
@@ -610,10 +720,20 @@ func c04msg(r *RNG, g, seq, n int) string {
 
 // budget bounds the total message bytes of one case (the case file and the extracted
 // model are linear resp. quadratic in it); once exhausted, messages stay short
-func c04threads(r *RNG, n, maxOps int, sizeClass int, bufSize int, withSync bool, budget int) []c04Thread {
+// refl: 0 = no reflection-encoded value in the derivations / per-call fields (derivations 0..4,
+// up to 3 extra fields); 1 = derivations 0..7; 2 = derivations 0..7 and up to 7 extra fields
+// (the last three reflection-encoded); 3 = derivations 0..4, up to 7 extra fields
+func c04threads(r *RNG, n, maxOps int, sizeClass int, bufSize int, withSync bool, budget int, refl int) []c04Thread {
 	ths := make([]c04Thread, n)
+	nDeriv, nNf := 5, 4
+	if refl == 1 || refl == 2 {
+		nDeriv = 8
+	}
+	if refl >= 2 {
+		nNf = 8
+	}
 	for g := range ths {
-		ths[g].deriv = r.Intn(5)
+		ths[g].deriv = r.Intn(nDeriv)
 		m := r.Range(1, maxOps)
 		for seq := 0; seq < m; seq++ {
 			if withSync && r.Chance(6) {
@@ -657,7 +777,7 @@ func c04threads(r *RNG, n, maxOps int, sizeClass int, bufSize int, withSync bool
 					lvl = zapcore.ErrorLevel
 				}
 			}
-			ths[g].ops = append(ths[g].ops, c04Op{kind: 0, fe: r.Intn(6), lvl: lvl, msg: c04msg(r, g, seq, ln), nf: r.Intn(4)})
+			ths[g].ops = append(ths[g].ops, c04Op{kind: 0, fe: r.Intn(6), lvl: lvl, msg: c04msg(r, g, seq, ln), nf: r.Intn(nNf)})
 		}
 	}
 	return ths
@@ -772,6 +892,9 @@ func c04child(c *Ctx) {
 	emit := func(cs *c04Case) {
 		cs.seed = r.Next()
 		cs.class = c04className(cs.br)
+		if cs.usesRefl() {
+			cs.class += "/refl"
+		}
 		if caseNo >= from {
 			c04emit(c, cs, caseNo)
 		}
@@ -806,12 +929,72 @@ func c04child(c *Ctx) {
 								bs = b.size
 							}
 						}
-						cs := &c04Case{br: br, th: c04threads(r, n, 10, sc, bs, ws, 3000)}
+						cs := &c04Case{br: br, th: c04threads(r, n, 10, sc, bs, ws, 3000, 0)}
 						if ws {
 							cs.ticks = 5
 						}
 						emit(cs)
 					}
+				}
+			}
+		}
+	}
+	// 1b. directed: reflection-encoded values (zap.Reflect / zap.Any of a struct, map, slice) in the
+	// With-context of the logger the goroutines share and/or in the per-call fields, JSON and console.
+	// The long-lived encoder of such a With-context owns a reflection scratch buffer; the per-call
+	// clones must not share or free it.
+	rgrid := [][]c04Branch{
+		{{kind: c04Lock}},
+		{{kind: c04Lock, console: true}},
+		{{kind: c04Combine, k: 2}},
+		{{kind: c04Open, k: 1, console: true}},
+		{{kind: c04Buf, size: 64}},
+		{{kind: c04LockBuf, size: 1024, console: true}},
+		{{kind: c04Lock}, {kind: c04Lock, console: true}},
+		{{kind: c04Buf, size: 512}, {kind: c04Combine, k: 2, console: true}, {kind: c04Open, k: 1}},
+	}
+	rreps := 1
+	if c.Thorough {
+		rreps = 10
+	}
+	for rep := 0; rep < rreps; rep++ {
+		for _, br := range rgrid {
+			for _, n := range []int{2, 8} {
+				for mode := 0; mode < 5; mode++ {
+					bs := 64
+					for _, b := range br {
+						if b.size > 0 {
+							bs = b.size
+						}
+					}
+					ws := mode == 4
+					cs := &c04Case{br: br}
+					switch mode {
+					case 0: // only the base logger's With-context is reflected; ordinary per-call fields
+						cs.baseCtx = 1 + (rep+n)%4
+						cs.th = c04threads(r, n, 24, 1, bs, ws, 6000, 0)
+					case 1: // every goroutine logs through ONE With-child holding a reflected field
+						cs.sharedCtx = 1 + (rep+n/2)%2
+						cs.th = c04threads(r, n, 24, 1, bs, ws, 6000, 0)
+						for g := range cs.th {
+							cs.th[g].deriv = 4
+						}
+					case 2: // reflected values in the per-call fields only
+						cs.callRefl = true
+						cs.th = c04threads(r, n, 24, 0, bs, ws, 6000, 3)
+					case 3: // private reflected With-children of a plain base (derivations 5..7)
+						cs.th = c04threads(r, n, 24, 0, bs, ws, 6000, 1)
+						for g := range cs.th {
+							cs.th[g].deriv = 5 + (g+rep)%3
+						}
+					default: // everything at once, with Sync calls and flush ticks
+						cs.baseCtx = 1 + (rep+n+1)%4
+						cs.sharedCtx = 1 + rep%2
+						cs.callRefl = true
+						cs.th = c04threads(r, n, 24, 2, bs, ws, 6000, 2)
+						cs.ticks = 5
+					}
+					emit(cs)
 				}
 			}
 		}
@@ -852,7 +1035,37 @@ func c04child(c *Ctx) {
 			maxOps = 60
 		}
 		ws := r.Chance(60)
-		cs := &c04Case{br: br, th: c04threads(r, n, maxOps, r.Intn(3), bs, ws, budget)}
+		cs := &c04Case{br: br}
+		refl := 0
+		caseBudget := budget
+		if r.Chance(45) {
+			// reflection-encoded values: in the shared With-contexts, the private derivations, the call sites
+			if r.Chance(60) {
+				cs.baseCtx = r.Range(1, 4)
+			}
+			if r.Chance(60) {
+				cs.sharedCtx = r.Range(1, 2)
+			}
+			refl = r.Intn(4)
+			cs.callRefl = refl >= 2
+			// these lines carry 100..400 bytes of context each: bound the case size by the number of lines
+			caseBudget = budget / 2
+			if m := 160 / (n * nb); maxOps > m {
+				maxOps = m
+				if maxOps < 6 {
+					maxOps = 6
+				}
+			}
+		}
+		cs.th = c04threads(r, n, maxOps, r.Intn(3), bs, ws, caseBudget, refl)
+		if cs.sharedCtx != 0 && r.Chance(40) {
+			// most goroutines on the one shared child
+			for g := range cs.th {
+				if r.Chance(75) {
+					cs.th[g].deriv = 4
+				}
+			}
+		}
 		if ws {
 			cs.ticks = r.Intn(20)
 		}
